@@ -626,7 +626,7 @@ Definition ensure_dials (st : pst) (totals : list (bytes * nat)) : pst :=
 
 (* ---- events ---- *)
 Inductive event :=
-| EConnect (c : nat) (admitted : bool)
+| EConnect (c : nat) (allowed : bool)
 | EClientData (c : nat) (b : bytes) (dialled : list (bytes * nat))
 | ETasks (order : list (nat * list N))
 | EServerData (s : nat) (b : bytes)
@@ -642,10 +642,10 @@ Definition task_fuel (st : pst) : nat := S (length (tasks st)) * 4 + 64.
 
 Definition step (st : pst) (e : event) : result pst :=
   match e with
-  | EConnect c admitted =>
+  | EConnect c allowed =>
       match lookup c (clients st) with
       | Some _ => ROk st                       (* connection identifiers are never reused *)
-      | None => ROk (set_client st c {| pc_open := admitted; pc_left := []; pc_queue := []; pc_got := []; pc_sent := 0; pc_hist := []; pc_closing := false |})
+      | None => ROk (set_client st c {| pc_open := allowed; pc_left := []; pc_queue := []; pc_got := []; pc_sent := 0; pc_hist := []; pc_closing := false |})
       end
   | EClientData c b totals => ROk (ensure_dials (client_data st c b) totals)
   | ETasks order => ROk (run_tasks (task_fuel st) st (order_fn order))
